@@ -10,6 +10,9 @@ import AfkakProofs.Crc.Grow
 import AfkakProofs.Crc.CrcField
 import AfkakProofs.Crc.FetchTotal
 import AfkakProofs.Crc.Agree
+import AfkakProofs.Crc.AgreeResp
+import AfkakProofs.Crc.AgreeResp2
+import AfkakProofs.Crc.Alloc
 import AfkakProps.Open.C12
 /-!
 # C12 — corrupted or truncated message data is never delivered; decoding is linear
@@ -130,6 +133,12 @@ theorem C12_truncate_monitor (gz : Gz) (depth : Nat) (ms : List (Int × Msg)) (c
       (decodeSet gz depth ((encodeSet ms).take c)).err = true :=
   decodeSet_truncOk gz depth ms c hpl hc
 
+/-- An untruncated set of plain messages decodes to exactly those messages, ending normally. -/
+theorem C12_msgset_roundtrip (gz : Gz) (depth : Nat) (ms : List (Int × Msg))
+    (hpl : ∀ om ∈ ms, plainEntry om = true) :
+    (decodeSet gz depth (encodeSet ms)).msgs = ms ∧ (decodeSet gz depth (encodeSet ms)).err = none :=
+  decodeSet_roundtrip gz depth ms hpl
+
 /-- A plain message decodes to itself (what "the complete messages" are). -/
 theorem C12_message_roundtrip (inner : List UInt8 → SetOut) (gz : Gz) (off : Int) (m : Msg)
     (hp : plainMsg m = true) :
@@ -200,6 +209,49 @@ theorem C12_linear_sync_group_member_assignment (bs : List UInt8) :
     (run decodeSyncGroupMemberAssignment bs).cost ≤ 2 * bs.length + 1 :=
   lin_run lin_decodeSyncGroupMemberAssignment bs
 
+/-- **Memory side.**  The same decoders run under the `bytes` measure — every primitive call is
+    charged the number of bytes it slices out of the buffer (`data[cur:cur+n]` copies; the decoded
+    values are made of exactly these slices) — allocate at most `|input|` bytes, for every byte
+    string: no decoder copies more than it consumes, whatever its length and count fields claim. -/
+theorem C12_alloc_decoders (v : Int) (bs : List UInt8) :
+    (run (@decodeApiVersions bytesMeasure) bs).cost ≤ bs.length ∧
+    (run (@decodeProduce bytesMeasure v) bs).cost ≤ bs.length ∧
+    (run (@decodeFetch bytesMeasure v) bs).cost ≤ bs.length ∧
+    (run (@decodeOffset bytesMeasure) bs).cost ≤ bs.length ∧
+    (run (@decodeMetadata bytesMeasure) bs).cost ≤ bs.length ∧
+    (run (@decodeConsumerMetadata bytesMeasure) bs).cost ≤ bs.length ∧
+    (run (@decodeOffsetCommit bytesMeasure) bs).cost ≤ bs.length ∧
+    (run (@decodeOffsetFetch bytesMeasure) bs).cost ≤ bs.length ∧
+    (run (@decodeJoinGroupProtocolMetadata bytesMeasure) bs).cost ≤ bs.length ∧
+    (run (@decodeJoinGroup bytesMeasure) bs).cost ≤ bs.length ∧
+    (run (@decodeLeaveGroup bytesMeasure) bs).cost ≤ bs.length ∧
+    (run (@decodeHeartbeat bytesMeasure) bs).cost ≤ bs.length ∧
+    (run (@decodeSyncGroup bytesMeasure) bs).cost ≤ bs.length ∧
+    (run (@decodeSyncGroupMemberAssignment bytesMeasure) bs).cost ≤ bs.length :=
+  ⟨tight_run tight_decodeApiVersions bs, tight_run (tight_decodeProduce v) bs,
+   tight_run (tight_decodeFetch v) bs, tight_run tight_decodeOffset bs,
+   tight_run tight_decodeMetadata bs, tight_run tight_decodeConsumerMetadata bs,
+   tight_run tight_decodeOffsetCommit bs, tight_run tight_decodeOffsetFetch bs,
+   tight_run tight_decodeJoinGroupProtocolMetadata bs, tight_run tight_decodeJoinGroup bs,
+   tight_run tight_decodeLeaveGroup bs, tight_run tight_decodeHeartbeat bs,
+   tight_run tight_decodeSyncGroup bs, tight_run tight_decodeSyncGroupMemberAssignment bs⟩
+
+/-- **Memory side, message sets**: iterating any byte string as a message set slices/copies at most
+    3·(|data| + bytes obtained from gunzip) bytes (entry header and body, the `data[4:]` copy handed
+    to `zlib.crc32`, the timestamp/key/value slices) — every gunzip function, every nesting depth. -/
+theorem C12_alloc_msgset (gz : Gz) (depth : Nat) (data : List UInt8) :
+    (@decodeSet bytesMeasure gz depth data).cost
+      ≤ 3 * (data.length + (@decodeSet bytesMeasure gz depth data).gz) :=
+  decodeSet_alloc gz depth data
+
+theorem C12_alloc_monitor (gz : Gz) (depth : Nat) (data : List UInt8) :
+    allocOk data.length (run (@decodeMetadata bytesMeasure) data).cost = true ∧
+    setAllocOk data.length (@decodeSet bytesMeasure gz depth data).gz
+      (@decodeSet bytesMeasure gz depth data).cost = true := by
+  refine ⟨?_, ?_⟩
+  · simpa [allocOk] using tight_run tight_decodeMetadata data
+  · simpa [setAllocOk] using decodeSet_alloc gz depth data
+
 /-- Every response decoder's outcome satisfies the monitor `readsOk` evaluated on the real decoder's
     step count (one instance shown; the other thirteen are the same line). -/
 theorem C12_linear_monitor (bs : List UInt8) :
@@ -242,8 +294,8 @@ theorem C12_fuel_suffices (gz : Gz) (depth : Nat) (data : List UInt8) :
 
 `Afkak.Wire.*` (package "wire") is a second hand-written model of the same Python functions, without
 cost, with `Int` cursors and Python slices.  Erasing the cost from this package's decoders gives
-exactly wire's — proved for the readers, `_decode_message`, `_decode_message_set_iter` and
-`decode_fetch_response`; cross-checked at run time for every other decoder (`xdec` requests). -/
+exactly wire's — proved for the readers, `_decode_message`, `_decode_message_set_iter` and all
+fourteen response decoders (and cross-checked at run time on every hostile input, `xdec`). -/
 
 open Afkak.Agree in
 /-- primitive readers -/
@@ -273,6 +325,78 @@ theorem C12_agree_fetch (gz : Gz) (depth : Nat) (v : Int) (data : List UInt8) :
           = (parts.map (toFetchResp gz depth), .ok (c : Int))
     | .err e _ => (Afkak.Wire.decodeFetchResponse (extOf gz) (depth + 1) data v).2 = .error (errMap e) :=
   decodeFetch_agree gz depth v data
+
+open Afkak.Agree in
+/-- The generator decoders `decode_produce_response`, `decode_offset_response`,
+    `decode_offset_commit_response`, `decode_offset_fetch_response`: the same items, the same final
+    cursor — or the same exception. -/
+theorem C12_agree_generators (v : Int) (data : List UInt8) :
+    (match run (decodeProduce v) data with
+      | .ok val _ _ => ∃ parts cw, val = .list parts ∧
+          Afkak.Wire.decodeProduceResponse data v = .ok (parts.map toProduce, .ok cw)
+      | .err e _ => Afkak.Wire.decodeProduceResponse data v = .error (errMap e) ∨
+          ∃ g, Afkak.Wire.decodeProduceResponse data v = .ok g ∧ g.2 = .error (errMap e)) ∧
+    (match run decodeOffset data with
+      | .ok val c _ => ∃ parts, val = .list parts ∧
+          Afkak.Wire.decodeOffsetResponse data = (parts.map toOffsetResp, .ok (c : Int))
+      | .err e _ => (Afkak.Wire.decodeOffsetResponse data).2 = .error (errMap e)) ∧
+    (match run decodeOffsetCommit data with
+      | .ok val c _ => ∃ parts, val = .list parts ∧
+          Afkak.Wire.decodeOffsetCommitResponse data = (parts.map toOffsetCommit, .ok (c : Int))
+      | .err e _ => (Afkak.Wire.decodeOffsetCommitResponse data).2 = .error (errMap e)) ∧
+    (match run decodeOffsetFetch data with
+      | .ok val c _ => ∃ parts, val = .list parts ∧
+          Afkak.Wire.decodeOffsetFetchResponse data = (parts.map toOffsetFetch, .ok (c : Int))
+      | .err e _ => (Afkak.Wire.decodeOffsetFetchResponse data).2 = .error (errMap e)) :=
+  ⟨decodeProduce_agree v data, decodeOffset_agree data, decodeOffsetCommit_agree data,
+    decodeOffsetFetch_agree data⟩
+
+open Afkak.Agree in
+/-- The value decoders `decode_api_versions_response`, `decode_consumermetadata_response`,
+    `decode_sync_group_response`, `decode_leave_group_response`, `decode_heartbeat_response`. -/
+theorem C12_agree_values (data : List UInt8) :
+    Afkak.Wire.decodeApiVersionsResponse data
+      = eraseVal (fun v => match v with
+          | .list [e, .list vs] => (valInt e, vs.map toApiVersion)
+          | _ => (0, [])) (run decodeApiVersions data) ∧
+    Afkak.Wire.decodeConsumerMetadataResponse data
+      = eraseVal (fun v => match v with
+          | .list [e, n, h, p] => ⟨valInt e, valInt n, valBytes h, valInt p⟩
+          | _ => ⟨0, 0, [], 0⟩) (run decodeConsumerMetadata data) ∧
+    Afkak.Wire.decodeSyncGroupResponse data
+      = eraseVal (fun v => match v with | .list [e, ma] => (valInt e, valOptBytes ma) | _ => (0, none))
+          (run decodeSyncGroup data) ∧
+    Afkak.Wire.decodeLeaveGroupResponse data
+      = eraseVal (fun v => match v with | .list [e] => valInt e | _ => 0) (run decodeLeaveGroup data) ∧
+    Afkak.Wire.decodeHeartbeatResponse data
+      = eraseVal (fun v => match v with | .list [e] => valInt e | _ => 0) (run decodeHeartbeat data) :=
+  ⟨apiVersions_agree data, consumerMetadata_agree data, syncGroup_agree data,
+    (leave_heartbeat_agree data).1, (leave_heartbeat_agree data).2⟩
+
+open Afkak.Agree in
+/-- `decode_metadata_response` (brokers and topics as the item lists of the dicts, in insertion
+    order), `decode_join_group_response`, `decode_join_group_protocol_metadata`,
+    `decode_sync_group_member_assignment` — with text fields validated by the same UTF-8 language. -/
+theorem C12_agree_structured (data : List UInt8) :
+    Afkak.Wire.decodeMetadataResponse data
+      = eraseVal (fun v => match v with
+          | .list [.list bd, .list td] => (bd.map toBrokerItem, td.map toTopicItem)
+          | _ => ([], [])) (run decodeMetadata data) ∧
+    Afkak.Wire.decodeJoinGroupResponse data
+      = eraseVal (fun v => match v with
+          | .list [e, g, p, l, m, .list ms] =>
+            ⟨valInt e, valInt g, valBytes p, valBytes l, valBytes m, ms.map toMember⟩
+          | _ => ⟨0, 0, [], [], [], []⟩) (run decodeJoinGroup data) ∧
+    Afkak.Wire.decodeJoinGroupProtocolMetadata data
+      = eraseVal (fun v => match v with
+          | .list [ver, .list subs, ud] => ⟨valInt ver, subs.map valBytes, valOptBytes ud⟩
+          | _ => ⟨0, [], none⟩) (run decodeJoinGroupProtocolMetadata data) ∧
+    Afkak.Wire.decodeSyncGroupMemberAssignment data
+      = eraseVal (fun v => match v with
+          | .list [ver, .list ad, ud] => ⟨valInt ver, ad.map toAssignItem, valOptBytes ud⟩
+          | _ => ⟨0, [], none⟩) (run decodeSyncGroupMemberAssignment data) ∧
+    (∀ bs, Afkak.Wire.validUtf8 bs = validUtf8 bs) :=
+  ⟨metadata_agree data, joinGroup_agree data, joinMeta_agree data, assignment_agree data, validUtf8_agree⟩
 
 /-! ## Non-vacuity: concrete values meeting the hypotheses -/
 
@@ -307,6 +431,7 @@ C12_burst_any_position_counterexample
 C12_truncate
 C12_truncate_monitor
 C12_message_roundtrip
+C12_msgset_roundtrip
 C12_grow
 C12_grow_factors
 C12_linear_readers
@@ -324,6 +449,9 @@ C12_linear_leave_group
 C12_linear_heartbeat
 C12_linear_sync_group
 C12_linear_sync_group_member_assignment
+C12_alloc_decoders
+C12_alloc_msgset
+C12_alloc_monitor
 C12_linear_monitor
 C12_linear_msgset
 C12_linear_msgset_monitor
@@ -333,6 +461,9 @@ C12_fuel_suffices
 C12_agree_readers
 C12_agree_msgset
 C12_agree_fetch
+C12_agree_generators
+C12_agree_values
+C12_agree_structured
 -/
 /- OPEN_STATEMENTS
 C12_burst_any_position
